@@ -14,7 +14,7 @@ def life_scenario(rng, sid, big=False):
     skip = 1 if (n > 1 and rng.random() < 0.2) else 0
     L += ["m start %d" % skip]
     if rng.random() < 0.8: L.append("m waitrun")          # else: shutdown may race with starting threads
-    mid = [sid * 100 + 1]
+    mid = [(sid % 400) * 100 + 1]
     def nid():
         mid[0] += 1; return mid[0] - 1
     live = list(range(skip, n))
